@@ -103,6 +103,11 @@ func Do(h *back.Harness, rq Request, plan model.FaultPlan) *Outcome {
 		}
 	})
 	out.Calls = append([]back.Call{}, h.Calls...)
+	if out.Resp != nil && out.Panic == nil && ref.Cyclic(out.Resp) {
+		// a response that contains itself can not be serialised by anything (and no monitor can walk it)
+		out.Panic = "the response data structure is cyclic: a map or list in it contains itself"
+		out.Resp = nil
+	}
 	if out.Resp != nil {
 		d, has := out.Resp["data"]
 		out.HasData = has && d != nil
